@@ -33,6 +33,11 @@ class Ctx:
         e.contracts = self.contracts
         from .externals import DEFAULT_ABSTRACT
         e.abstract = dict(DEFAULT_ABSTRACT)
+        try:
+            from props.ppu_common import ext_read_handler
+            e.abstract["ext:read"] = ext_read_handler
+        except ImportError:
+            pass
         return e, ce
 
     def seed_globals(self, st, include_mutable=False):
